@@ -41,11 +41,14 @@ FLOORS = {
 }
 JOBS = {"quick": 1, "thorough": 16}
 
+CASE_TIMEOUT_S = 900
+AMBIENT_FILES = ['test_blockreduce.py', 'test_model_selection.py', 'test_projections.py', 'test_coordinates.py']
+
 
 def plan(tier):
     if tier == "quick":
         return collections.OrderedDict(random=240, edges=160, outside=120, layouts=100, dtypes=80, nested=40)
-    return collections.OrderedDict(random=4000, edges=2500, outside=2000, layouts=1500, dtypes=1500, nested=600)
+    return collections.OrderedDict(random=4000, edges=2500, outside=2000, layouts=1500, dtypes=1500, nested=600, ambient=4)
 
 
 # ----------------------------------------------------------------------
@@ -202,6 +205,10 @@ def _block_args(rng, region, allow_single=True):
 
 
 def run_case(run, tap, stream, index, rng):
+    if stream == "ambient":
+        from .. import core as _core
+
+        return _core.ambient_tests(run, AMBIENT_FILES[index])
     import pandas as pd
     import verde as vd
 
